@@ -835,4 +835,426 @@ theorem intBytes_minimal (n : Nat) (v : Int) (hn : 1 ≤ n) (hin : inR n v) (hmi
       have := inR_mono (rest'.length + 1) (n - 1) (by simp only [List.length_cons] at hle; omega) v this
       exact hmin (by simp only [List.length_cons] at hle; omega) this
 
+
+/-! ## OBJECT IDENTIFIER -/
+set_option maxRecDepth 100000
+/-! ## base-128 sub-identifiers -/
+
+theorem b7_lo : ∀ n, n < 128 →
+    ((UInt8.ofNat n &&& 0x7f).toNat = n ∧ (UInt8.ofNat n &&& 0x80 == 0) = true ∧
+     ((UInt8.ofNat n ||| 0x80) &&& 0x7f).toNat = n ∧ ((UInt8.ofNat n ||| 0x80) &&& 0x80 == 0) = false ∧
+     ((UInt8.ofNat n ||| 0x80 == 0x80) = decide (n = 0)) ∧ (UInt8.ofNat n == 0x80) = false) := by decide
+
+theorem b7_split : ∀ n, n < 256 →
+    (UInt8.ofNat n = if (UInt8.ofNat n &&& 0x80 == 0) = true then UInt8.ofNat ((UInt8.ofNat n &&& 0x7f).toNat)
+      else UInt8.ofNat ((UInt8.ofNat n &&& 0x7f).toNat) ||| 0x80) ∧ (UInt8.ofNat n &&& 0x7f).toNat < 128 := by decide
+
+theorem b7_split' (b : UInt8) :
+    (b = if (b &&& 0x80 == 0) = true then UInt8.ofNat ((b &&& 0x7f).toNat)
+      else UInt8.ofNat ((b &&& 0x7f).toNat) ||| 0x80) ∧ (b &&& 0x7f).toNat < 128 := by
+  obtain ⟨n, hn, rfl⟩ := byte_cases b
+  exact b7_split n hn
+
+
+theorem div_pow_succ (n k : Nat) : n / 128 ^ (k + 1) = n / 128 ^ k / 128 := by
+  rw [Nat.pow_succ, Nat.div_div_eq_div_mul]
+
+theorem div_pow_le (n k : Nat) (hk : 1 ≤ k) : n / 128 ^ k ≤ n / 128 := by
+  apply Nat.div_le_div_left _ (by decide)
+  calc 128 = 128 ^ 1 := rfl
+    _ ≤ 128 ^ k := Nat.pow_le_pow_right (by decide) hk
+
+/-- encoder → reader, generalised over the digits still to come -/
+theorem readBase128_digits : ∀ (L fuel : Nat) (first : Bool) (n : Nat) (s : Bytes),
+    1 ≤ L → L ≤ fuel → n / 128 < 2 ^ 24 → (first = true → L = 1 ∨ n / 128 ^ (L - 1) % 128 ≠ 0) →
+    readBase128 fuel first (n / 128 ^ L) (base128Digits L n ++ s) = some (n, s)
+  | 0, _, _, _, _, h, _, _, _ => by omega
+  | k + 1, 0, _, _, _, _, h, _, _ => by omega
+  | k + 1, f + 1, first, n, s, _, hf, hn, hfirst => by
+    have hd : n / 128 ^ k % 128 < 128 := Nat.mod_lt _ (by decide)
+    obtain ⟨f1, f2, f3, f4, f5, f6⟩ := b7_lo _ hd
+    have hret : ¬ (n / 128 ^ (k + 1) ≥ 2 ^ 24) := by
+      have := div_pow_le n (k + 1) (by omega); omega
+    have hstep : n / 128 ^ (k + 1) * 128 + n / 128 ^ k % 128 = n / 128 ^ k := by
+      rw [div_pow_succ]; exact Nat.div_add_mod' _ _
+    by_cases hk : k = 0
+    · subst hk
+      simp only [base128Digits, bne_self_eq_false, Bool.false_eq_true, if_false, List.cons_append, List.nil_append,
+        readBase128, hret, f6, Bool.and_false, f1, f2, if_true]
+      simp only [Nat.pow_zero, Nat.div_one] at hstep ⊢
+      rw [hstep]
+    · have hk1 : 1 ≤ k := by omega
+      have hnz : n / 128 ^ k % 128 ≠ 0 ∨ first = false := by
+        cases first with
+        | false => right; rfl
+        | true =>
+          left
+          rcases hfirst rfl with h | h
+          · omega
+          · simpa using h
+      have hlead : (first && (UInt8.ofNat (n / 128 ^ k % 128) ||| 0x80 == 0x80)) = false := by
+        rw [f5]
+        rcases hnz with h | h
+        · simp [h]
+        · simp [h]
+      have ih := readBase128_digits k f false n s hk1 (by omega) hn (by simp)
+      simp only [base128Digits, bne_iff_ne, ne_eq, hk, not_false_eq_true, if_true, List.cons_append,
+        readBase128, hret, if_false, hlead, Bool.false_eq_true, f3, f4, hstep]
+      exact ih
+
+
+/-- reader → encoder, generalised: whatever is accepted is `L` digits of the returned value -/
+theorem readBase128_sound : ∀ (fuel : Nat) (first : Bool) (ret : Nat) (s : Bytes) (v : Nat) (s' : Bytes),
+    readBase128 fuel first ret s = some (v, s') →
+    ∃ L, 1 ≤ L ∧ L ≤ fuel ∧ v / 128 ^ L = ret ∧ s = base128Digits L v ++ s' ∧ v / 128 < 2 ^ 24 ∧
+      (first = true → L = 1 ∨ v / 128 ^ (L - 1) % 128 ≠ 0)
+  | _, _, _, [], _, _, h => by cases ‹Nat› <;> simp [readBase128] at h
+  | 0, _, _, _ :: _, _, _, h => by simp [readBase128] at h
+  | f + 1, first, ret, b :: t, v, s', h => by
+    unfold readBase128 at h
+    by_cases hret : ret ≥ 2 ^ 24
+    · rw [if_pos hret] at h; cases h
+    · rw [if_neg hret] at h
+      by_cases hlead : (first && b == 0x80) = true
+      · rw [if_pos hlead] at h; cases h
+      · rw [if_neg hlead] at h
+        obtain ⟨hsplit, hd⟩ := b7_split' b
+        obtain ⟨f1, f2, f3, f4, f5, f6⟩ := b7_lo _ hd
+        generalize hdv : (b &&& 0x7f).toNat = d at *
+        simp only at h
+        by_cases htop : (b &&& 0x80 == 0) = true
+        · rw [if_pos htop] at h
+          simp only [Option.some.injEq, Prod.mk.injEq] at h
+          obtain ⟨hv, hs⟩ := h
+          subst hv hs
+          rw [if_pos htop] at hsplit
+          refine ⟨1, by omega, by omega, by simp only [Nat.pow_one]; omega, ?_, by omega, fun _ => Or.inl rfl⟩
+          simp only [base128Digits, bne_self_eq_false, Bool.false_eq_true, if_false, Nat.pow_zero, Nat.div_one,
+            List.cons_append, List.nil_append]
+          have : (ret * 128 + d) % 128 = d := by omega
+          rw [this, ← hsplit]
+        · rw [if_neg htop] at h
+          rw [if_neg htop] at hsplit
+          obtain ⟨L', l1, l2, l3, l4, l5, _⟩ := readBase128_sound f false (ret * 128 + d) t v s' h
+          have hdig : v / 128 ^ L' % 128 = d := by rw [l3]; omega
+          refine ⟨L' + 1, by omega, by omega, by rw [div_pow_succ, l3]; omega, ?_, l5, ?_⟩
+          · have hne : (L' != 0) = true := by simp; omega
+            simp only [base128Digits, hne, if_true, List.cons_append, hdig]
+            rw [← hsplit, ← l4]
+          · intro hf
+            right
+            simp only [Nat.add_sub_cancel]
+            rw [hdig]
+            intro hz
+            apply hlead
+            rw [hf, hsplit, f5, hz]; simp
+
+
+theorem base128Len_zero (fuel : Nat) : base128Len fuel 0 = 0 := by cases fuel <;> simp [base128Len]
+
+theorem base128Len_spec : ∀ (fuel i : Nat), i < 128 ^ fuel →
+    i < 128 ^ base128Len fuel i ∧ (0 < i → 1 ≤ base128Len fuel i ∧ 128 ^ (base128Len fuel i - 1) ≤ i)
+  | 0, i, h => by simp at h; subst h; simp [base128Len]
+  | fuel + 1, i, h => by
+    unfold base128Len
+    by_cases hi : i > 0
+    · rw [if_pos hi]
+      have hlt : i / 128 < 128 ^ fuel := by rw [Nat.pow_succ] at h; omega
+      obtain ⟨h1, h2⟩ := base128Len_spec fuel (i / 128) hlt
+      generalize hL : base128Len fuel (i / 128) = L' at *
+      refine ⟨by rw [Nat.add_comm, Nat.pow_succ]; omega, fun _ => ⟨by omega, ?_⟩⟩
+      rw [show 1 + L' - 1 = L' by omega]
+      by_cases hq : 0 < i / 128
+      · obtain ⟨l1, l2⟩ := h2 hq
+        obtain ⟨m, rfl⟩ : ∃ m, L' = m + 1 := ⟨L' - 1, by omega⟩
+        simp only [Nat.add_sub_cancel] at l2
+        rw [Nat.pow_succ]; omega
+      · have : i / 128 = 0 := by omega
+        rw [this, base128Len_zero] at hL
+        subst hL; simp; omega
+    · rw [if_neg hi]; simp; omega
+
+/-- number of base-128 digits AddASN1ObjectIdentifier writes for `v` -/
+def b128L (v : Nat) : Nat := if v = 0 then 1 else base128Len 10 v
+
+theorem addBase128_nat (v : Nat) : addBase128 (v : Int) = base128Digits (b128L v) v := by
+  unfold addBase128 b128L
+  simp only [show ¬ ((v : Int) < 0) by omega, if_false, Int.toNat_natCast]
+  by_cases h : v = 0 <;> simp [h]
+
+theorem base128Digits_length : ∀ (L n : Nat), (base128Digits L n).length = L
+  | 0, _ => rfl
+  | L + 1, n => by simp [base128Digits, base128Digits_length L n]
+
+theorem pow128_unique (a b v : Nat) (ha : 1 ≤ a) (hb : 1 ≤ b) (h1 : 128 ^ (a - 1) ≤ v) (h2 : v < 128 ^ a)
+    (h3 : 128 ^ (b - 1) ≤ v) (h4 : v < 128 ^ b) : a = b := by
+  by_cases hab : a < b
+  · have : 128 ^ a ≤ 128 ^ (b - 1) := Nat.pow_le_pow_right (by decide) (by omega)
+    omega
+  · by_cases hba : b < a
+    · have : 128 ^ b ≤ 128 ^ (a - 1) := Nat.pow_le_pow_right (by decide) (by omega)
+      omega
+    · omega
+
+theorem b128L_spec (v : Nat) (hv : v < 2 ^ 35) :
+    1 ≤ b128L v ∧ b128L v ≤ 5 ∧ v < 128 ^ b128L v ∧ (0 < v → 128 ^ (b128L v - 1) ≤ v) := by
+  unfold b128L
+  by_cases h0 : v = 0
+  · subst h0; simp
+  · rw [if_neg h0]
+    obtain ⟨h1, h2⟩ := base128Len_spec 10 v (by omega)
+    obtain ⟨h3, h4⟩ := h2 (by omega)
+    refine ⟨h3, ?_, h1, fun _ => h4⟩
+    by_cases h5 : base128Len 10 v ≤ 5
+    · exact h5
+    · exfalso
+      have : 128 ^ 5 ≤ 128 ^ (base128Len 10 v - 1) := Nat.pow_le_pow_right (by decide) (by omega)
+      omega
+
+/-- **sub-identifier round trip**: what AddASN1ObjectIdentifier writes for `v < 2^31` is read back as `v` -/
+theorem readBase128_add (v : Nat) (hv : v < 2 ^ 31) (s : Bytes) :
+    readBase128 5 true 0 (addBase128 (v : Int) ++ s) = some (v, s) := by
+  obtain ⟨l1, l2, l3, l4⟩ := b128L_spec v (by omega)
+  rw [addBase128_nat]
+  have h0 : v / 128 ^ b128L v = 0 := Nat.div_eq_of_lt l3
+  have := readBase128_digits (b128L v) 5 true v s l1 l2 (by omega) (by
+    intro _
+    by_cases h1 : b128L v = 1
+    · left; exact h1
+    · right
+      have hpos : 0 < v := by
+        by_cases hz : v = 0
+        · subst hz; simp [b128L] at h1
+        · omega
+      have hge := l4 hpos
+      have hp : 0 < 128 ^ (b128L v - 1) := Nat.pow_pos (by decide)
+      have hq : 1 ≤ v / 128 ^ (b128L v - 1) := (Nat.le_div_iff_mul_le hp).mpr (by omega)
+      have hq2 : v / 128 ^ (b128L v - 1) < 128 := by
+        rw [Nat.div_lt_iff_lt_mul hp]
+        have : 128 ^ b128L v = 128 ^ (b128L v - 1) * 128 := by
+          rw [← Nat.pow_succ]; congr 1; omega
+        omega
+      omega)
+  rw [h0] at this
+  exact this
+
+/-- **sub-identifier acceptance**: `readBase128Int` accepts exactly the minimal base-128 form of values < 2^31 -/
+theorem readBase128_iff (s s' : Bytes) (v : Nat) :
+    readBase128 5 true 0 s = some (v, s') ↔ v < 2 ^ 31 ∧ s = addBase128 (v : Int) ++ s' := by
+  constructor
+  · intro h
+    obtain ⟨L, l1, l2, l3, l4, l5, l6⟩ := readBase128_sound 5 true 0 s v s' h
+    have hv : v < 2 ^ 31 := by omega
+    refine ⟨hv, ?_⟩
+    rw [addBase128_nat, l4]
+    suffices hL : L = b128L v by rw [hL]
+    obtain ⟨c1, c2, c3, c4⟩ := b128L_spec v (by omega)
+    have hp : 0 < 128 ^ L := Nat.pow_pos (by decide)
+    have hlt : v < 128 ^ L := by
+      by_cases h : v < 128 ^ L
+      · exact h
+      · exfalso
+        have : 1 ≤ v / 128 ^ L := (Nat.le_div_iff_mul_le hp).mpr (by omega)
+        omega
+    by_cases hz : v = 0
+    · subst hz
+      rcases l6 rfl with h | h
+      · rw [h]; simp [b128L]
+      · simp at h
+    · have hge : 128 ^ (L - 1) ≤ v := by
+        rcases l6 rfl with h | h
+        · rw [h]; simp; omega
+        · have hp' : 0 < 128 ^ (L - 1) := Nat.pow_pos (by decide)
+          by_cases hh : 128 ^ (L - 1) ≤ v
+          · exact hh
+          · exfalso; apply h
+            rw [Nat.div_eq_of_lt (by omega)]
+      exact pow128_unique L (b128L v) v l1 c1 hge hlt (c4 (by omega)) c3
+  · rintro ⟨hv, rfl⟩
+    exact readBase128_add v hv s'
+
+
+/-- concatenated minimal base-128 forms -/
+def encSubs (xs : List Nat) : Bytes := (xs.map fun (x : Nat) => addBase128 (x : Int)).flatten
+
+theorem b128L_pos (v : Nat) : 1 ≤ b128L v := by
+  unfold b128L
+  by_cases h : v = 0
+  · simp [h]
+  · rw [if_neg h]; unfold base128Len; rw [if_pos (by omega)]; omega
+
+theorem addBase128_length_pos (v : Nat) : 1 ≤ (addBase128 (v : Int)).length := by
+  rw [addBase128_nat, base128Digits_length]; exact b128L_pos v
+
+theorem readArcs_enc : ∀ (xs : List Nat) (fuel : Nat), (∀ x ∈ xs, x < 2 ^ 31) → (encSubs xs).length ≤ fuel →
+    readArcs fuel (encSubs xs) = some xs
+  | [], fuel, _, _ => by cases fuel <;> simp [encSubs, readArcs]
+  | x :: xs, fuel, hx, hf => by
+    have hpos := addBase128_length_pos x
+    have hcons : encSubs (x :: xs) = addBase128 (x : Int) ++ encSubs xs := by simp [encSubs]
+    rw [hcons] at hf ⊢
+    simp only [List.length_append] at hf
+    obtain ⟨f, rfl⟩ : ∃ f, fuel = f + 1 := ⟨fuel - 1, by omega⟩
+    have hne : addBase128 (x : Int) ++ encSubs xs ≠ [] := by
+      intro h; have := congrArg List.length h; rw [List.length_append, List.length_nil] at this; omega
+    have hrd := readBase128_add x (hx x (by simp)) (encSubs xs)
+    have ih := readArcs_enc xs f (fun y hy => hx y (by simp [hy])) (by omega)
+    match hs : addBase128 (x : Int) ++ encSubs xs, hne with
+    | b :: t, _ =>
+      rw [hs] at hrd
+      simp only [readArcs, hrd, ih, Option.map_some]
+
+theorem readArcs_sound : ∀ (fuel : Nat) (s : Bytes) (xs : List Nat), readArcs fuel s = some xs →
+    (∀ x ∈ xs, x < 2 ^ 31) ∧ s = encSubs xs
+  | fuel, [], xs, h => by
+    have : xs = [] := by cases fuel <;> simp [readArcs] at h <;> exact h
+    subst this; simp [encSubs]
+  | 0, _ :: _, xs, h => by simp [readArcs] at h
+  | f + 1, b :: t, xs, h => by
+    simp only [readArcs] at h
+    cases hr : readBase128 5 true 0 (b :: t) with
+    | none => simp [hr] at h
+    | some p =>
+      obtain ⟨v, s'⟩ := p
+      simp only [hr] at h
+      cases hrest : readArcs f s' with
+      | none => simp [hrest] at h
+      | some ys =>
+        simp only [hrest, Option.map_some, Option.some.injEq] at h
+        subst h
+        obtain ⟨hv, hs⟩ := (readBase128_iff (b :: t) s' v).mp hr
+        obtain ⟨i1, i2⟩ := readArcs_sound f s' ys hrest
+        refine ⟨?_, ?_⟩
+        · intro x hx
+          simp only [List.mem_cons] at hx
+          rcases hx with rfl | hx
+          · exact hv
+          · exact i1 x hx
+        · rw [hs, i2]; simp [encSubs]
+
+/-- the arcs an OBJECT IDENTIFIER reader can return -/
+def oidValid : List Nat → Prop
+  | a :: b :: rest => a ≤ 2 ∧ (a < 2 → b < 40) ∧ 40 * a + b < 2 ^ 31 ∧ ∀ x ∈ rest, x < 2 ^ 31
+  | _ => False
+
+/-- X.690 §8.19 contents octets: first sub-identifier 40·a+b, then the other arcs, each minimal base-128 -/
+def encOID : List Nat → Bytes
+  | a :: b :: rest => addBase128 ((40 * a + b : Nat) : Int) ++ encSubs rest
+  | _ => []
+
+/-- **oid_iff**: ReadASN1ObjectIdentifier returns `arcs` iff the input starts with an OBJECT IDENTIFIER element
+    whose contents are exactly the minimal base-128 encoding of `arcs` (first two arcs packed as 40a+b, a ≤ 2,
+    b < 40 unless a = 2, every sub-identifier < 2^31) -/
+theorem oid_iff (s r : Bytes) (arcs : List Nat) :
+    readOID s = some (arcs, r) ↔ oidValid arcs ∧ readASN1Tag 6 s = some (encOID arcs, r) := by
+  unfold readOID
+  constructor
+  · intro h
+    cases hr : readASN1Tag 6 s with
+    | none => simp [hr] at h
+    | some p =>
+      obtain ⟨body, r'⟩ := p
+      simp only [hr] at h
+      by_cases he : body.isEmpty = true
+      · simp [he] at h
+      · rw [if_neg he] at h
+        cases hb : readBase128 5 true 0 body with
+        | none => simp [hb] at h
+        | some q =>
+          obtain ⟨v, b'⟩ := q
+          simp only [hb] at h
+          cases ha : readArcs b'.length b' with
+          | none => simp [ha] at h
+          | some rest =>
+            simp only [ha, Option.map_some, Option.some.injEq, Prod.mk.injEq] at h
+            obtain ⟨h1, h2⟩ := h
+            subst h2
+            obtain ⟨hv, hs⟩ := (readBase128_iff body b' v).mp hb
+            obtain ⟨i1, i2⟩ := readArcs_sound _ _ _ ha
+            by_cases h80 : v < 80
+            · rw [if_pos h80] at h1
+              subst h1
+              have e : 40 * (v / 40) + v % 40 = v := Nat.div_add_mod v 40
+              refine ⟨⟨by omega, fun _ => Nat.mod_lt _ (by decide), by rw [e]; exact hv, i1⟩, ?_⟩
+              simp only [List.cons_append, List.nil_append, encOID, e]
+              rw [hs, i2]
+            · rw [if_neg h80] at h1
+              subst h1
+              have e : 40 * 2 + (v - 80) = v := by omega
+              refine ⟨⟨by omega, fun h => by omega, by rw [e]; exact hv, i1⟩, ?_⟩
+              simp only [List.cons_append, List.nil_append, encOID, e]
+              rw [hs, i2]
+  · rintro ⟨hvalid, hr⟩
+    match arcs, hvalid with
+    | a :: b :: rest, ⟨ha, hb, hv, hrest⟩ =>
+      simp only [hr, encOID]
+      have hpos := addBase128_length_pos (40 * a + b)
+      have hne : ¬ ((addBase128 ((40 * a + b : Nat) : Int) ++ encSubs rest).isEmpty = true) := by
+        intro h
+        have : (addBase128 ((40 * a + b : Nat) : Int) ++ encSubs rest).length = 0 := by
+          simpa [List.isEmpty_iff] using congrArg List.length (List.isEmpty_iff.mp h)
+        simp only [List.length_append] at this; omega
+      rw [if_neg hne, readBase128_add _ hv]
+      simp only
+      rw [readArcs_enc rest _ hrest (Nat.le_refl _)]
+      simp only [Option.map_some, Option.some.injEq, Prod.mk.injEq, and_true]
+      by_cases h2 : a < 2
+      · have := hb h2
+        rw [if_pos (by omega)]
+        have e1 : (40 * a + b) / 40 = a := by omega
+        have e2 : (40 * a + b) % 40 = b := by omega
+        rw [e1, e2]; rfl
+      · have : a = 2 := by omega
+        subst this
+        rw [if_neg (by omega)]
+        have : 40 * 2 + b - 80 = b := by omega
+        rw [this]; rfl
+
+
+theorem any_neg_cast (l : List Nat) : (l.map (fun (x : Nat) => (x : Int))).any (· < 0) = false := by
+  induction l with
+  | nil => rfl
+  | cons a l ih => simp only [List.map_cons, List.any_cons, ih, Bool.or_false]; simp
+
+/-- AddASN1ObjectIdentifier emits the X.690 contents octets for every valid OID -/
+theorem addOID_valid (arcs : List Nat) (hv : oidValid arcs) :
+    addOID (arcs.map (fun (x : Nat) => (x : Int))) = addASN1 6 (encOID arcs) := by
+  match arcs, hv with
+  | a :: b :: rest, ⟨ha, hb, hv, hrest⟩ =>
+    simp only [List.map_cons, addOID]
+    have c1 : ¬ ((decide ((a : Int) > 2) || (decide ((a : Int) ≤ 1) && decide ((b : Int) ≥ 40))) = true) := by
+      simp only [Bool.or_eq_true, decide_eq_true_eq, Bool.and_eq_true, not_or, not_and]
+      constructor
+      · omega
+      · intro h1; have := hb (by omega); omega
+    have c2 : ¬ (((a : Int) == 2 && decide ((b : Int) > 2 ^ 63 - 1 - 80)) = true) := by
+      simp only [Bool.and_eq_true, decide_eq_true_eq, not_and]
+      intro _; omega
+    have c3 : ¬ ((((a : Int) :: (b : Int) :: rest.map (fun (x : Nat) => (x : Int))).any (· < 0)) = true) := by
+      have := any_neg_cast (a :: b :: rest)
+      simp only [List.map_cons] at this
+      rw [this]; simp
+    rw [if_neg c1, if_neg c2, if_neg c3]
+    congr 1
+    simp only [encOID, encSubs, List.map_map]
+    congr 2
+    push_cast; rw [Int.mul_comm]
+
+/-- **AddASN1ObjectIdentifier → ReadASN1ObjectIdentifier** -/
+theorem addOID_read (arcs : List Nat) (out rest : Bytes) (hv : oidValid arcs)
+    (hlen : (encOID arcs).length ≤ 0xfffffff9)
+    (h : addOID (arcs.map (fun (x : Nat) => (x : Int))) = some out) :
+    readOID (out ++ rest) = some (arcs, rest) := by
+  rw [addOID_valid arcs hv] at h
+  unfold addASN1 at h
+  simp only [show ((6 : UInt8) &&& 0x1f == 0x1f) = false by decide, Bool.false_eq_true, if_false] at h
+  by_cases hl : (encOID arcs).length > 0xfffffffe
+  · omega
+  · rw [if_neg hl] at h
+    simp only [Option.some.injEq] at h
+    subst h
+    have := readASN1Tag_der 6 (encOID arcs) rest (by decide) hlen
+    simp only [List.cons_append, List.append_assoc] at this ⊢
+    exact (oid_iff _ rest arcs).mpr ⟨hv, this⟩
+
 end XC.C23
